@@ -117,3 +117,12 @@ Theorem c09_no_point_interval_conversion :
   && forallb (fun p => negb (String.eqb (fst p) "TemperatureKind") && negb (String.eqb (snd p) "TemperatureKind")) si_impl_from
   && forallb (fun c => forallb (fun o => c09_rejected c (PAdditive o (c09_tt 0) (c09_tt 0))) [AAdd; ASub; AAddAssign; ASubAssign]) c09_cfgs = true.
 Proof. vm_compute. reflexivity. Qed.
+
+(* how the unit! macro turns the optional second term of `@unit: coefficient, offset;` into constant() for every storage class (and
+   -0.0 / +0.0 when there is none), and that the public arm forwards every term - as Model.Run.cons_add / cons_sub transcribe it
+   (Gen/StorageSrc.v is regenerated from src/unit.rs on every run) *)
+From UomV Require Import Gen.StorageSrc Spec.StorageTie.
+Theorem c09_unit_macro_offset_plumbing :
+  forallb (fun c => rows_eqb (class_rows c src_storage) (class_rows c expected_storage))
+          ["unit!:Float"; "unit!:PrimInt,BigInt"; "unit!:BigUint"; "unit!:Ratio"; "unit!:Complex"; "unit!:arm"; "unit!:public arm"] = true.
+Proof. vm_compute. reflexivity. Qed.
